@@ -2425,6 +2425,11 @@ DLLIMPORT cfg_t *cfg_addtsec(cfg_t *cfg, const char *name, const char *title)
 		cfg_error(cfg, _("no such option '%s'"), name);
 		return NULL;
 	}
+	if (opt->type != CFGT_SEC) {
+		/* cfg_setopt() would store the title as the option's value */
+		errno = EINVAL;
+		return NULL;
+	}
 	val = cfg_setopt(cfg, opt, title);
 	if (!val)
 		return NULL;
